@@ -117,8 +117,13 @@ pub fn oracle(st: &State, hist: &[RoundRec], flow: FlowId, rounds_of_flow: &[usi
     bad
 }
 
-fn true_distance(topo: &str) -> Option<u8> {
+fn true_distance(topo: &str, round: usize) -> Option<u8> {
     match topo {
+        "grow-2-3" => Some(if round < 2 { 2 } else { 3 }),
+        "grow-2-4" => Some(if round < 2 { 2 } else { 4 }),
+        "shrink-4-2" => Some(if round < 2 { 4 } else { 2 }),
+        "shrink-4-3" => Some(if round < 2 { 4 } else { 3 }),
+        "shrink-3-2" => Some(if round < 2 { 3 } else { 2 }),
         "L1" => Some(1),
         "L2" => Some(2),
         "L3" | "ecmp" | "silent-mid" => Some(3),
@@ -132,10 +137,11 @@ fn real_menu() -> Menu {
 }
 
 /// Oracle for one real execution: (key, detail, round) for every clause that fails.
-fn judge_real(t: &Task, o: &drive::RunOutcome, true_dist: Option<u8>) -> Vec<(String, String, usize)> {
+fn judge_real(t: &Task, o: &drive::RunOutcome) -> Vec<(String, String, usize)> {
     let mut bad = vec![];
     let mut hist: Vec<RoundRec> = vec![];
     for (r, pb) in o.world.publishes.iter().enumerate() {
+        let true_dist = true_distance(t.topo, r);
         hist.push(RoundRec { probes: pb.probes.clone(), largest_ttl: pb.largest_ttl });
         if let Some(st) = o.round_snapshots.get(r) {
             let all: Vec<usize> = (0..hist.len()).collect();
@@ -162,6 +168,16 @@ fn judge_real(t: &Task, o: &drive::RunOutcome, true_dist: Option<u8>) -> Vec<(St
                 bad.push(("path-length-not-true-distance:real".into(), format!("path length {} but the target is at distance {d}", pb.largest_ttl), r));
             }
         }
+        // the same clause from the network's side: in an execution without any scheduling deviation
+        // (nothing lost, delayed, duplicated or reordered) a target that answers when probed is
+        // found at its true distance in every round at whose start the path had been the same for
+        // a whole round - also when no probe reached it because the tracer stopped short
+        let stable = r == 0 || true_distance(t.topo, r - 1) == true_dist && (r < 2 || true_distance(t.topo, r - 2) == true_dist);
+        if let (Some(d), true, true) = (true_dist, o.world.chooser.deviations() == 0, stable) {
+            if d >= t.params.first_ttl && d <= t.params.max_ttl && pb.largest_ttl != d {
+                bad.push(("path-length-not-true-distance-on-stable-path:real".into(), format!("path length {} but the answering target has been at distance {d} since round {}", pb.largest_ttl, (0..=r).rev().take_while(|q| true_distance(t.topo, *q) == true_dist).last().unwrap_or(r)), r));
+            }
+        }
         if let (None, false) = (true_dist, pb.probes.iter().any(|s| matches!(s, ProbeStatus::Complete(_)))) {
             if pb.largest_ttl != 0 {
                 bad.push(("path-length-nonzero-with-no-answer:real".into(), format!("largest_ttl {} though nothing answered", pb.largest_ttl), r));
@@ -175,12 +191,13 @@ fn replay_real(path: &str) -> i32 {
     let (t, choices) = c01::load_task(path);
     drive::SNAPSHOT_EACH_ROUND.with(|s| s.set(true));
     let topo = drive::topo_named(&t.cell, t.topo);
-    let net = drive::net_cfg(&t.cell, &t.params, topo, real_menu());
+    let mut net = drive::net_cfg(&t.cell, &t.params, topo, real_menu());
+    net.reroute = drive::reroute_named(&t.cell, t.topo);
     let o = drive::run_trace(&t.cell, &t.params, net, Chooser::new(&choices, 100_000));
     drive::SNAPSHOT_EACH_ROUND.with(|s| s.set(false));
     println!("replay C10: cell={} topo={} first_ttl={} max_ttl={} choices={:?}", t.cell.name(), t.topo, t.params.first_ttl, t.params.max_ttl, choices);
     c01::print_trace(&o);
-    let bad = judge_real(&t, &o, true_distance(t.topo));
+    let bad = judge_real(&t, &o);
     for (k, d, r) in &bad {
         println!("DISCREPANCY {k}: round {r}: {d}");
     }
@@ -306,21 +323,30 @@ pub fn run(args: &Args) -> i32 {
             }
         }
     }
+    // changing paths: the route to the target gets longer / shorter between rounds 1 and 2
+    for cell in drive::base_cells() {
+        for topo in ["grow-2-3", "grow-2-4", "shrink-4-2", "shrink-4-3", "shrink-3-2"] {
+            for first_ttl in [1u8, 2] {
+                let p = TraceParams { first_ttl, rounds: 5, packet_size: if cell.v6 { 96 } else { 84 }, ..TraceParams::default() };
+                rtasks.push(Task { cell, topo, params: p, bound: if tier == Tier::Thorough { 2 } else { 1 } });
+            }
+        }
+    }
     let ragg = Mutex::new((mc::ExploreStats::default(), 0u64));
     mc::par_for(rtasks.len(), mc::workers(), |ti| {
         let t = &rtasks[ti];
         let mut local = Findings::new();
         let mut rounds = 0u64;
-        let true_dist = true_distance(t.topo);
         drive::SNAPSHOT_EACH_ROUND.with(|s| s.set(true));
         let stats = mc::explore(t.bound, 400, &mut |ch| {
             let c = std::mem::replace(ch, Chooser::new(&[], 0));
             let topo = drive::topo_named(&t.cell, t.topo);
-            let net = drive::net_cfg(&t.cell, &t.params, topo, real_menu());
+            let mut net = drive::net_cfg(&t.cell, &t.params, topo, real_menu());
+            net.reroute = drive::reroute_named(&t.cell, t.topo);
             let o = drive::run_trace(&t.cell, &t.params, net, c);
             *ch = o.world.chooser.clone();
             rounds += o.world.publishes.len() as u64;
-            for (key, detail, r) in judge_real(t, &o, true_dist) {
+            for (key, detail, r) in judge_real(t, &o) {
                 let e = local.entry(key.clone()).or_insert_with(|| Finding { key, detail: format!("[{} {} first_ttl={} max_ttl={} choices={:?}] round {r}: {detail}", t.cell.name(), t.topo, t.params.first_ttl, t.params.max_ttl, ch.choices), replay: c01::replay_json("C10", t, &ch.choices), weight: (ch.deviations(), r), count: 0 });
                 e.count += 1;
             }
@@ -344,7 +370,7 @@ pub fn run(args: &Args) -> i32 {
     rep.set("synthetic_depth_completed", json!(depth));
     rep.set("real_executions", json!(rstats.executions));
     rep.set("real_rounds_checked", json!(rrounds));
-    rep.set("rule", json!(format!("synthetic: 14 round shapes (path lengths 1..4, answering/silent target, unknown hops, failed and re-issued probes; largest_ttl by the strategy's contract) x first_ttl {{1,2,5}}: ALL histories to depth {depth} on the real State, de-duplicated on (depth, getter results); after every round: hops() empty iff no path length, else consecutive ttl lowest-probed..=max path length with each probed hop carrying its ttl, target_hop/is_target/is_in_round at the latest round's length, no query panics (also on the empty state). real: 14 cells x 8 topologies x first_ttl {{1,2,3}} x 3 rounds + 14 cells x 4 topologies x (first_ttl,max_ttl) in {{(1,1),(1,2),(2,2),(1,3),(2,3)}} (max_ttl short of the target), path length <= highest ttl probed in the round, all executions with <= 2 (3 thorough) deviations, same oracle on the snapshot at every publish + path length = true distance in every round in which the target's reply to the probe at its true distance was received, 0 when nothing answers")));
+    rep.set("rule", json!(format!("synthetic: 14 round shapes (path lengths 1..4, answering/silent target, unknown hops, failed and re-issued probes; largest_ttl by the strategy's contract) x first_ttl {{1,2,5}}: ALL histories to depth {depth} on the real State, de-duplicated on (depth, getter results); after every round: hops() empty iff no path length, else consecutive ttl lowest-probed..=max path length with each probed hop carrying its ttl, target_hop/is_target/is_in_round at the latest round's length, no query panics (also on the empty state). real: 14 cells x 8 topologies x first_ttl {{1,2,3}} x 3 rounds + 14 cells x 4 topologies x (first_ttl,max_ttl) in {{(1,1),(1,2),(2,2),(1,3),(2,3)}} (max_ttl short of the target), path length <= highest ttl probed in the round, all executions with <= 2 (3 thorough) deviations, + changing paths: 14 cells x {{2->3, 2->4, 4->2, 4->3, 3->2 hops}} x first_ttl {{1,2}}, 5 rounds with the route changing after round 1 (<= 1 deviation, 2 thorough), same oracle on the snapshot at every publish + path length = true distance in every round in which the target's reply to the probe at its true distance was received (and, in the deviation-free execution, in every round at whose start the path had been unchanged for a whole round), 0 when nothing answers")));
     for s in samples {
         rep.sample(s);
     }
